@@ -325,8 +325,9 @@ def native_bias(M, cfgd, model):
         if not (a > 0 and w > 0 and np.isfinite(a) and np.isfinite(w) and np.isfinite(bv)): continue
         pin = qt.UniformQuantParams(in_bits, None, np.array([[a]], np.float32), np.zeros((1, 1), np.int32), True)
         pw = qt.UniformQuantParams(8, 0, np.array([[w], [w], [w]], np.float32), np.zeros((3, 1), np.int32), True)
-        with np.errstate(all='ignore'):
-            p = M.uq.symmetric_quantize_bias_tensor(np.array([bv] * 3, np.float32), pin, pw)
+        import warnings
+        with np.errstate(all='ignore'), warnings.catch_warnings():
+            warnings.simplefilter('ignore'); p = M.uq.symmetric_quantize_bias_tensor(np.array([bv] * 3, np.float32), pin, pw)
         S = float(a) * float(w); bad = []
         if p.scale.shape != (3,) or not np.allclose(p.scale, S, rtol=1e-6): bad.append('scale')
         if np.any(p.zero_point != 0): bad.append('zero_point')
